@@ -1,6 +1,10 @@
 //! C10 — template registration is atomic and independent of history.
-//! Family `history`: a sequence of add_raw_templates / autoescape_on calls on ONE long-lived
-//! `Tera`, drawn from a pool of (name, source) descriptors that contains every failure kind.
+//! Family `history`: a sequence of add_raw_templates / add_template_file / add_template_files /
+//! autoescape_on calls on ONE long-lived `Tera`, drawn from a pool of (name, source) descriptors
+//! that contains every failure kind. File calls read real files the harness writes under
+//! `<out>/files` (its working directory): with an explicit name or with the path as the name,
+//! and with the failure kinds only files have (no file, a directory, content that is not UTF-8,
+//! a path that is not UTF-8) anywhere in a batch.
 //!   * after each call: accept/reject + ErrorKind  vs  Model.Registry.run  (T-corr)
 //!   * implementation-side oracle = the property itself: after a failing call the observable
 //!     behaviour (names, every render, every render_block, every get_component_definition,
@@ -78,10 +82,144 @@ fn suffix_sets() -> Vec<Vec<String>> {
     ]
 }
 
+/// one entry of a file call: pool descriptor `0` supplies the key (its name) and, for `Good`,
+/// the content
+#[derive(Clone, Copy, Debug, PartialEq)]
+enum FK {
+    Good,
+    Missing,
+    NotUtf8,
+    Dir,
+    BadPath,
+}
+const FILE_FAILS: [FK; 4] = [FK::Missing, FK::NotUtf8, FK::Dir, FK::BadPath];
+
+#[derive(Clone, Copy, Debug)]
+struct FArg {
+    idx: usize,
+    /// true: stored under a path of its own and registered with `Some(name)`;
+    /// false: stored under `./<name>` and registered with `None` (path = name)
+    named: bool,
+    kind: FK,
+}
+fn fa(idx: usize, named: bool) -> FArg {
+    FArg { idx, named, kind: FK::Good }
+}
+fn ff(idx: usize, named: bool, kind: FK) -> FArg {
+    FArg { idx, named, kind }
+}
+
 #[derive(Clone, Debug)]
 enum Call {
     Add(Vec<usize>),
     Auto(usize),
+    /// add_template_files; a one-element list goes through add_template_file
+    Files(Vec<FArg>),
+}
+
+/// one file of a glob directory: named like pool descriptor `idx`
+#[derive(Clone, Copy, Debug)]
+struct GEnt {
+    idx: usize,
+    /// Good / NotUtf8 / Dir (a sub-directory of that name: the walk skips it) / BadPath (the
+    /// file name itself is not UTF-8)
+    kind: FK,
+}
+fn ge(idx: usize) -> GEnt {
+    GEnt { idx, kind: FK::Good }
+}
+fn gx(idx: usize, kind: FK) -> GEnt {
+    GEnt { idx, kind }
+}
+const GLOB_FAILS: [FK; 2] = [FK::NotUtf8, FK::BadPath];
+
+#[derive(Clone, Debug)]
+enum GCallH {
+    Plain(Call),
+    /// put exactly these files into directory GDIRS[.0], then load_from_glob("<dir>/*")
+    Load(usize, Vec<GEnt>),
+    /// load_from_glob with a pattern without `*`
+    LoadInvalid,
+    /// put exactly these files into the directory of the remembered glob (if any), then full_reload
+    Reload(Vec<GEnt>),
+}
+const GDIRS: [&str; 2] = ["ga", "gb"];
+
+/// (file name, kind, content) of every file of a glob directory
+type DirSpec = Vec<(String, String, String)>;
+
+fn set_dir(dir: &str, spec: &DirSpec) {
+    use std::os::unix::ffi::OsStringExt;
+    let _ = std::fs::remove_dir_all(dir);
+    std::fs::create_dir_all(dir).expect("mkdir glob dir");
+    let d = std::path::Path::new(dir);
+    for (name, kind, content) in spec {
+        match kind.as_str() {
+            "text" => std::fs::write(d.join(name), content).expect("write glob file"),
+            "notutf8" => std::fs::write(d.join(name), b"[1]\xff\xfe{{ x }}").expect("write glob file"),
+            "dir" => std::fs::create_dir(d.join(name)).expect("mkdir in glob dir"),
+            "badpath" => {
+                let mut b = name.as_bytes().to_vec();
+                b.extend_from_slice(b"\xff\xfe.html");
+                std::fs::write(d.join(std::ffi::OsString::from_vec(b)), content).expect("write glob file")
+            }
+            _ => {}
+        }
+    }
+}
+
+fn dirspec_json(spec: &DirSpec) -> serde_json::Value {
+    json!(spec.iter().map(|(n, k, c)| json!({"name": n, "kind": k, "content": c})).collect::<Vec<_>>())
+}
+fn dirspec_from_json(v: &serde_json::Value) -> DirSpec {
+    v.as_array()
+        .map(|a| a.iter().map(|e| (e["name"].as_str().unwrap_or("").to_string(), e["kind"].as_str().unwrap_or("").to_string(), e["content"].as_str().unwrap_or("").to_string())).collect())
+        .unwrap_or_default()
+}
+
+fn glob_call(tera: &mut Tera, pattern: Option<&str>) -> Result<(), String> {
+    let r = std::panic::catch_unwind(std::panic::AssertUnwindSafe(|| match pattern {
+        Some(p) => tera.load_from_glob(p),
+        None => tera.full_reload(),
+    }));
+    match r {
+        Ok(Ok(())) => Ok(()),
+        Ok(Err(e)) => Err(err_class(&e)),
+        Err(_) => Err("panic".to_string()),
+    }
+}
+
+/// replays one JSON call (`add`, `add_files`, `autoescape_on`, `load_from_glob`, `full_reload`) on `tera`
+fn replay_call(tera: &mut Tera, c: &serde_json::Value) -> String {
+    if let Some(g) = c.get("load_from_glob") {
+        if let Some(d) = g["dir"].as_str() {
+            set_dir(d, &dirspec_from_json(&g["files"]));
+        }
+        let pat = g["pattern"].as_str().unwrap_or("");
+        let r = glob_call(tera, Some(pat));
+        return format!("load_from_glob({pat:?}) over {} -> {r:?}", g["files"]);
+    }
+    if let Some(g) = c.get("full_reload") {
+        if let Some(d) = g["dir"].as_str() {
+            set_dir(d, &dirspec_from_json(&g["files"]));
+        }
+        let r = glob_call(tera, None);
+        return format!("full_reload() over {} -> {r:?}", g["files"]);
+    }
+    if let Some(sf) = c.get("autoescape_on") {
+        let v: Vec<String> = sf.as_array().unwrap().iter().map(|x| x.as_str().unwrap().to_string()).collect();
+        let d = format!("autoescape_on({v:?})");
+        tera.autoescape_on(v);
+        d
+    } else if let Some(fs) = c.get("add_files") {
+        let ents: Vec<FileEnt> = fs.as_array().unwrap().iter().map(FileEnt::from_json).collect();
+        let r = add_files(tera, &ents, true);
+        format!("add_files {:?} -> {r:?}", ents.iter().map(|e| (e.path.clone(), e.name.clone(), format!("{:?}", e.kind))).collect::<Vec<_>>())
+    } else {
+        let b: Vec<(String, String)> = c["add"].as_array().unwrap().iter().map(|p| (p[0].as_str().unwrap().to_string(), p[1].as_str().unwrap().to_string())).collect();
+        let r = add_all(tera, &b);
+        format!("add {b:?} -> {r:?}")
+    }
 }
 
 fn observe(tera: &Tera) -> Vec<String> {
@@ -128,13 +266,7 @@ fn observe_child_main() -> ! {
     silence_panics();
     let mut tera = Tera::default();
     for c in job["calls"].as_array().expect("calls") {
-        if let Some(sf) = c.get("autoescape_on") {
-            let v: Vec<String> = sf.as_array().unwrap().iter().map(|x| x.as_str().unwrap().to_string()).collect();
-            tera.autoescape_on(v);
-        } else {
-            let b: Vec<(String, String)> = c["add"].as_array().unwrap().iter().map(|p| (p[0].as_str().unwrap().to_string(), p[1].as_str().unwrap().to_string())).collect();
-            let _ = add_all(&mut tera, &b);
-        }
+        let _ = replay_call(&mut tera, c);
     }
     println!("{}", json!(observe(&tera)));
     std::process::exit(0);
@@ -170,6 +302,10 @@ fn first_diff(a: &[String], b: &[String]) -> String {
 
 struct Run {
     sink: Sink,
+    gsink: Sink,
+    glob_calls_ok: usize,
+    glob_calls_err: BTreeMap<String, usize>,
+    reload_probes: usize,
     meta: Meta,
     pool: Vec<(String, Tpl, &'static str)>,
     srcs: Vec<String>,
@@ -177,10 +313,338 @@ struct Run {
     calls_ok: usize,
     calls_err: BTreeMap<String, usize>,
     fresh_compared: usize,
+    fresh_from_files: usize,
     child_observations: usize,
+    file_calls_ok: usize,
+    file_calls_err: BTreeMap<String, usize>,
+    file_entries_by_kind: BTreeMap<String, usize>,
 }
 
 impl Run {
+    fn file_ent(&self, a: &FArg) -> FileEnt {
+        let name = self.pool[a.idx].0.clone();
+        let (path, nm) = if a.named { (format!("src/t{}.tpl", a.idx), Some(name)) } else { (name, None) };
+        let kind = match a.kind {
+            FK::Good => FileKind::Text(self.srcs[a.idx].clone()),
+            FK::Missing => FileKind::Missing,
+            FK::NotUtf8 => FileKind::NotUtf8,
+            FK::Dir => FileKind::Dir,
+            FK::BadPath => FileKind::BadPath,
+        };
+        FileEnt { path, name: nm, kind }
+    }
+
+    fn dirspec(&self, ents: &[GEnt]) -> DirSpec {
+        // one directory entry per file name: the last description of a name wins (a file whose
+        // NAME is not UTF-8 is a different directory entry)
+        let last: Vec<&GEnt> = ents
+            .iter()
+            .enumerate()
+            .filter(|(k, e)| e.kind == FK::BadPath || !ents[k + 1..].iter().any(|l| l.kind != FK::BadPath && self.pool[l.idx].0 == self.pool[e.idx].0))
+            .map(|(_, e)| e)
+            .collect();
+        last.into_iter()
+            .map(|e| {
+                let kind = match e.kind {
+                    FK::Good => "text",
+                    FK::NotUtf8 => "notutf8",
+                    FK::Dir => "dir",
+                    FK::BadPath => "badpath",
+                    FK::Missing => "missing",
+                };
+                (self.pool[e.idx].0.clone(), kind.to_string(), self.srcs[e.idx].clone())
+            })
+            .collect()
+    }
+
+    /// What the engine's own walk finds in `dir` now, as `hglob` term + the (name, content)
+    /// pairs a successful load registers + whether an unreadable entry is among them.
+    fn walk_term(&self, dir: &str, ents: &[GEnt], used: &mut Vec<usize>) -> (String, Vec<(String, String)>, bool) {
+        let found = tera::load_from_glob(&format!("{dir}/*")).expect("walk");
+        let mut terms = vec![];
+        let mut reg = vec![];
+        let mut bad = false;
+        for (path, name) in found {
+            let label = format!("{dir}/{name}");
+            let nm = format!("(Some {})", gal_name(&name));
+            if path.to_str().is_none() {
+                bad = true;
+                terms.push(format!("{{| hf_path := {}; hf_src := HFBadPath; hf_name := {nm} |}}", gal_name(&label)));
+                continue;
+            }
+            // the last entry of that name wins in set_dir (same file written again)
+            let e = ents.iter().rev().find(|e| self.pool[e.idx].0 == name && matches!(e.kind, FK::Good | FK::NotUtf8)).expect("walk found a file the harness did not write");
+            match e.kind {
+                FK::Good => {
+                    if !used.contains(&e.idx) {
+                        used.push(e.idx);
+                    }
+                    let pos = used.iter().position(|u| *u == e.idx).unwrap();
+                    terms.push(format!("{{| hf_path := {}; hf_src := HFPool {pos}%nat; hf_name := {nm} |}}", gal_name(&label)));
+                    reg.push((name.clone(), self.srcs[e.idx].clone()));
+                }
+                _ => {
+                    bad = true;
+                    terms.push(format!("{{| hf_path := {}; hf_src := HFNoRead; hf_name := {nm} |}}", gal_name(&label)));
+                }
+            }
+        }
+        (format!("(HGFiles [{}])", terms.join("; ")), reg, bad)
+    }
+
+    /// Like `history`, over all call kinds including load_from_glob / full_reload (family
+    /// `globhistory`). Extra oracle after a failing call: a clone taken before the call and a clone
+    /// taken after it must behave alike under full_reload (remembered glob and from_glob marks
+    /// are observable only that way).
+    fn ghistory(&mut self, rng: &mut Rng, calls: &[GCallH], tag: &str) {
+        let mut tera = Tera::default();
+        let mut cur_sufs = 0usize;
+        let mut set: BTreeMap<String, String> = BTreeMap::new();
+        let mut globbed: std::collections::BTreeSet<String> = Default::default();
+        let mut cur_glob: Option<usize> = None;
+        let mut results: Vec<String> = vec![];
+        let mut jcalls: Vec<serde_json::Value> = vec![];
+        let mut gcalls: Vec<String> = vec![];
+        let mut used: Vec<usize> = vec![];
+        let mut prev_obs = observe(&tera);
+        let (mut any_err, mut any_ok, mut glob_ok, mut glob_err) = (false, false, false, false);
+        for (ci, c) in calls.iter().enumerate() {
+            let before = tera.clone();
+            let mut registering = true;
+            // (result, templates a success registers, keys a success un-marks / marks)
+            let r: Result<(), String>;
+            let mut registers: Vec<(String, String)> = vec![];
+            let mut is_glob = false;
+            let mut accepted_bad = false;
+            match c {
+                GCallH::Plain(Call::Auto(k)) => {
+                    registering = false;
+                    cur_sufs = *k;
+                    tera.autoescape_on(self.sufs[*k].clone());
+                    r = Ok(());
+                    jcalls.push(json!({"autoescape_on": self.sufs[*k]}));
+                    gcalls.push(format!("HG (HAuto {})", gal_names(&self.sufs[*k])));
+                }
+                GCallH::Plain(Call::Add(idx)) => {
+                    let batch: Vec<(String, String)> = idx.iter().map(|i| (self.pool[*i].0.clone(), self.srcs[*i].clone())).collect();
+                    r = add_all(&mut tera, &batch);
+                    jcalls.push(json!({"add": batch.iter().map(|(n, s)| json!([n, s])).collect::<Vec<_>>(),
+                        "impl": match &r { Ok(()) => json!("ok"), Err(c) => json!({"err": c}) }}));
+                    let mut ps = vec![];
+                    for i in idx {
+                        if !used.contains(i) {
+                            used.push(*i);
+                        }
+                        ps.push(used.iter().position(|u| u == i).unwrap().to_string());
+                    }
+                    gcalls.push(format!("HG (HAdd [{}]%nat)", ps.join(";")));
+                    registers = batch;
+                }
+                GCallH::Plain(Call::Files(fargs)) => {
+                    let ents: Vec<FileEnt> = fargs.iter().map(|a| self.file_ent(a)).collect();
+                    r = add_files(&mut tera, &ents, true);
+                    jcalls.push(json!({"add_files": ents.iter().map(|e| e.json()).collect::<Vec<_>>(),
+                        "impl": match &r { Ok(()) => json!("ok"), Err(c) => json!({"err": c}) }}));
+                    let mut ts = vec![];
+                    for (a, e) in fargs.iter().zip(ents.iter()) {
+                        let pos = if a.kind == FK::Good {
+                            if !used.contains(&a.idx) {
+                                used.push(a.idx);
+                            }
+                            used.iter().position(|u| *u == a.idx)
+                        } else {
+                            None
+                        };
+                        ts.push(gal_hfile(e, pos));
+                        match &e.kind {
+                            FileKind::Text(c) => registers.push((e.key().to_string(), c.clone())),
+                            _ => accepted_bad = true,
+                        }
+                    }
+                    gcalls.push(format!("HG (HAddFiles [{}])", ts.join("; ")));
+                }
+                GCallH::Load(d, ents) => {
+                    is_glob = true;
+                    let dir = GDIRS[*d];
+                    let spec = self.dirspec(ents);
+                    set_dir(dir, &spec);
+                    let (term, reg, bad) = self.walk_term(dir, ents, &mut used);
+                    let pat = format!("{dir}/*");
+                    r = glob_call(&mut tera, Some(&pat));
+                    jcalls.push(json!({"load_from_glob": {"dir": dir, "pattern": pat, "files": dirspec_json(&spec)},
+                        "impl": match &r { Ok(()) => json!("ok"), Err(c) => json!({"err": c}) }}));
+                    gcalls.push(format!("HGLoad {} {term}", gal_name(&pat)));
+                    registers = reg;
+                    accepted_bad = bad;
+                    if r.is_ok() {
+                        cur_glob = Some(*d);
+                    }
+                }
+                GCallH::LoadInvalid => {
+                    is_glob = true;
+                    let pat = "ga/nostar.html";
+                    r = glob_call(&mut tera, Some(pat));
+                    jcalls.push(json!({"load_from_glob": {"pattern": pat, "files": []},
+                        "impl": match &r { Ok(()) => json!("ok"), Err(c) => json!({"err": c}) }}));
+                    gcalls.push(format!("HGLoad {} HGInvalid", gal_name(pat)));
+                    accepted_bad = true;
+                }
+                GCallH::Reload(ents) => {
+                    is_glob = true;
+                    let spec = self.dirspec(ents);
+                    let mut term = "HGInvalid".to_string();
+                    if let Some(d) = cur_glob {
+                        set_dir(GDIRS[d], &spec);
+                        let (t, reg, bad) = self.walk_term(GDIRS[d], ents, &mut used);
+                        term = t;
+                        registers = reg;
+                        accepted_bad = bad;
+                    } else {
+                        accepted_bad = true;
+                    }
+                    r = glob_call(&mut tera, None);
+                    jcalls.push(json!({"full_reload": {"dir": cur_glob.map(|d| GDIRS[d]), "files": dirspec_json(&spec)},
+                        "impl": match &r { Ok(()) => json!("ok"), Err(c) => json!({"err": c}) }}));
+                    gcalls.push(format!("HGReload {term}"));
+                }
+            }
+            match &r {
+                Ok(()) => {
+                    results.push("(Ok tt)".into());
+                    if registering {
+                        any_ok = true;
+                        if accepted_bad {
+                            self.meta.oracle_fail(&format!("call {ci} was ACCEPTED although an entry could not be read / the glob is invalid / no glob is remembered"), None, json!({"calls": jcalls}));
+                        }
+                        if is_glob {
+                            glob_ok = true;
+                            self.glob_calls_ok += 1;
+                            for n in &globbed {
+                                set.remove(n);
+                            }
+                            globbed.clear();
+                        }
+                        for (n, s) in &registers {
+                            set.insert(n.clone(), s.clone());
+                            if is_glob {
+                                globbed.insert(n.clone());
+                            } else {
+                                globbed.remove(n);
+                            }
+                        }
+                    }
+                }
+                Err(cl) => {
+                    any_err = true;
+                    if is_glob {
+                        glob_err = true;
+                        *self.glob_calls_err.entry(cl.clone()).or_default() += 1;
+                    }
+                    results.push(format!("(Err {})", gal_ekind(cl)));
+                    if cl == "panic" {
+                        self.meta.oracle_fail(&format!("call {ci} panicked"), None, json!({"calls": jcalls}));
+                    }
+                }
+            }
+            // ---- oracle: the property itself
+            let failed = r.is_err();
+            self.meta.oracle_checks += 1;
+            let obs = if failed && !set.is_empty() {
+                self.child_observations += 1;
+                match observe_in_child(&jcalls) {
+                    Ok(o) => o,
+                    Err(how) => {
+                        self.meta.oracle_fail(&format!("after the FAILING call {ci} rendering the instance did not end ({how})"), None, json!({"calls": jcalls}));
+                        return;
+                    }
+                }
+            } else {
+                observe(&tera)
+            };
+            if failed && obs != prev_obs {
+                self.meta.oracle_fail(&format!("a FAILING call changed observable behaviour at call {ci}: {}", first_diff(&prev_obs, &obs)), None, json!({"calls": jcalls}));
+                return;
+            }
+            if failed && (is_glob || cur_glob.is_some()) {
+                // remembered glob and from_glob marks: both clones reload the same directory now
+                self.reload_probes += 1;
+                self.meta.oracle_checks += 1;
+                let mut p0 = before;
+                let mut p1 = tera.clone();
+                let r0 = glob_call(&mut p0, None);
+                let r1 = glob_call(&mut p1, None);
+                let (o0, o1) = (observe(&p0), observe(&p1));
+                if r0 != r1 || o0 != o1 {
+                    self.meta.oracle_fail(
+                        &format!("after the FAILING call {ci} full_reload() behaves differently from full_reload() on a copy taken before the call ({r0:?} vs {r1:?}; {}): the remembered glob or the from_glob marks were not restored", first_diff(&o0, &o1)),
+                        None,
+                        json!({"calls": jcalls}),
+                    );
+                    return;
+                }
+            }
+            // fresh instances given the resulting set: one sorted raw batch; one glob load of a
+            // directory holding exactly the set
+            // (after a failing call the observation equals the previous one, which was compared)
+            let sorted: Vec<(String, String)> = set.iter().map(|(n, s)| (n.clone(), s.clone())).collect();
+            for which in ["sorted batch", "glob load"] {
+                if failed {
+                    break;
+                }
+                let mut fresh = Tera::default();
+                fresh.autoescape_on(self.sufs[cur_sufs].clone());
+                self.meta.oracle_checks += 1;
+                self.fresh_compared += 1;
+                let fr = if which == "glob load" {
+                    let spec: DirSpec = sorted.iter().map(|(n, s)| (n.clone(), "text".to_string(), s.clone())).collect();
+                    set_dir("gfresh", &spec);
+                    glob_call(&mut fresh, Some("gfresh/*"))
+                } else {
+                    add_all(&mut fresh, &sorted)
+                };
+                match fr {
+                    Err(cl) => self.meta.oracle_fail(
+                        &format!("a fresh instance REJECTS ({cl}) the set the long-lived instance holds after call {ci} ({which})"),
+                        None,
+                        json!({"calls": jcalls, "set": sorted.iter().map(|(n, s)| json!([n, s])).collect::<Vec<_>>()}),
+                    ),
+                    Ok(()) => {
+                        let fo = observe(&fresh);
+                        if fo != obs {
+                            self.meta.oracle_fail(
+                                &format!("after call {ci} the instance differs from a fresh one given the same set ({which}): {}", first_diff(&obs, &fo)),
+                                None,
+                                json!({"calls": jcalls, "set": sorted.iter().map(|(n, s)| json!([n, s])).collect::<Vec<_>>()}),
+                            );
+                        }
+                    }
+                }
+            }
+            prev_obs = obs;
+        }
+        let _ = rng;
+        let pool_g: Vec<String> = used.iter().map(|i| format!("({}, {})", gal_name(&self.pool[*i].0), gal_source(&self.pool[*i].1))).collect();
+        let known: Vec<String> = KNOWN.iter().map(|s| s.to_string()).collect();
+        let g = format!(
+            "{{| gh_pre := []; gh_known := {}; gh_sufs := {}; gh_pool := [{}]; gh_calls := [{}]; gh_impl := [{}] |}}",
+            gal_names(&known),
+            gal_names(&self.sufs[0]),
+            pool_g.join("; "),
+            gcalls.join("; "),
+            results.join("; ")
+        );
+        let kinds: Vec<&str> = used.iter().map(|i| self.pool[*i].2).collect();
+        let desc = json!({"calls": jcalls, "pool_kinds": kinds});
+        let t2 = if any_err && any_ok { "mixed ok/err" } else if any_err { "only err" } else { "only ok" };
+        let t3 = match (glob_ok, glob_err) {
+            (true, true) => "glob calls: ok and err",
+            (true, false) => "glob calls: ok only",
+            (false, true) => "glob calls: err only",
+            _ => "no glob call",
+        };
+        self.gsink.push(g, desc, calls.len() >= 2 && glob_ok && any_err, None, &[tag, t2, t3]);
+    }
+
     fn history(&mut self, rng: &mut Rng, calls: &[Call], tag: &str) {
         let mut tera = Tera::default();
         let mut cur_sufs = 0usize;
@@ -190,6 +654,7 @@ impl Run {
         let mut prev_obs = observe(&tera);
         let mut any_err = false;
         let mut any_ok = false;
+        let mut has_files = false;
         let mut prev_names = sorted_names(&tera);
         for (ci, c) in calls.iter().enumerate() {
             let mut touches_existing = false;
@@ -227,9 +692,47 @@ impl Run {
                         }
                     }
                 }
+                Call::Files(fargs) => {
+                    has_files = true;
+                    let ents: Vec<FileEnt> = fargs.iter().map(|a| self.file_ent(a)).collect();
+                    touches_existing = ents.iter().enumerate().any(|(k, e)| set.contains_key(e.key()) || ents[..k].iter().any(|m| m.key() == e.key()));
+                    for a in fargs {
+                        *self.file_entries_by_kind.entry(format!("{:?}{}", a.kind, if a.named { "/named" } else { "/path-as-name" })).or_default() += 1;
+                    }
+                    let r = add_files(&mut tera, &ents, true);
+                    jcalls.push(json!({"add_files": ents.iter().map(|e| e.json()).collect::<Vec<_>>(),
+                        "impl": match &r { Ok(()) => json!("ok"), Err(c) => json!({"err": c}) }}));
+                    match &r {
+                        Ok(()) => {
+                            any_ok = true;
+                            self.file_calls_ok += 1;
+                            results.push("(Ok tt)".into());
+                            for e in &ents {
+                                match &e.kind {
+                                    FileKind::Text(c) => {
+                                        set.insert(e.key().to_string(), c.clone());
+                                    }
+                                    k => self.meta.oracle_fail(
+                                        &format!("add_template_files ACCEPTED a batch with an unreadable entry ({k:?}) at call {ci}"),
+                                        None,
+                                        json!({"calls": jcalls}),
+                                    ),
+                                }
+                            }
+                        }
+                        Err(cl) => {
+                            any_err = true;
+                            *self.file_calls_err.entry(cl.clone()).or_default() += 1;
+                            results.push(format!("(Err {})", gal_ekind(cl)));
+                            if cl == "panic" {
+                                self.meta.oracle_fail("add_template_files panicked", None, json!({"calls": jcalls}));
+                            }
+                        }
+                    }
+                }
             }
             // ---- oracle: the property itself
-            let failed_add = matches!(c, Call::Add(_)) && results.last().map_or(false, |r| r.starts_with("(Err"));
+            let failed_add = matches!(c, Call::Add(_) | Call::Files(_)) && results.last().map_or(false, |r| r.starts_with("(Err"));
             self.meta.oracle_checks += 1;
             let names_now = sorted_names(&tera);
             if failed_add && names_now != prev_names {
@@ -280,7 +783,27 @@ impl Run {
                 fresh.autoescape_on(self.sufs[cur_sufs].clone());
                 self.meta.oracle_checks += 1;
                 self.fresh_compared += 1;
-                match add_all(&mut fresh, batch) {
+                // in a history with file calls the shuffled fresh instance is filled from files
+                let via_files = has_files && which == "shuffled";
+                let r = if via_files {
+                    self.fresh_from_files += 1;
+                    let ents: Vec<FileEnt> = batch
+                        .iter()
+                        .enumerate()
+                        .map(|(k, (n, src))| {
+                            if rng.chance(1, 2) {
+                                FileEnt { path: format!("fresh/f{k}.tpl"), name: Some(n.clone()), kind: FileKind::Text(src.clone()) }
+                            } else {
+                                FileEnt { path: n.clone(), name: None, kind: FileKind::Text(src.clone()) }
+                            }
+                        })
+                        .collect();
+                    add_files(&mut fresh, &ents, false)
+                } else {
+                    add_all(&mut fresh, batch)
+                };
+                let which = if via_files { "shuffled, from files" } else { which };
+                match r {
                     Err(cl) => self.meta.oracle_fail(
                         &format!("a fresh instance REJECTS ({cl}) the set the long-lived instance holds after call {ci} ({which} batch)"),
                         None,
@@ -303,12 +826,22 @@ impl Run {
         // ---- Gallina case: pool restricted to the descriptors this history uses
         let mut used: Vec<usize> = vec![];
         for c in calls {
-            if let Call::Add(idx) = c {
-                for i in idx {
-                    if !used.contains(i) {
-                        used.push(*i);
+            match c {
+                Call::Add(idx) => {
+                    for i in idx {
+                        if !used.contains(i) {
+                            used.push(*i);
+                        }
                     }
                 }
+                Call::Files(fargs) => {
+                    for a in fargs {
+                        if a.kind == FK::Good && !used.contains(&a.idx) {
+                            used.push(a.idx);
+                        }
+                    }
+                }
+                Call::Auto(_) => {}
             }
         }
         let pos = |i: usize| used.iter().position(|u| *u == i).unwrap();
@@ -318,6 +851,10 @@ impl Run {
             .map(|c| match c {
                 Call::Add(idx) => format!("HAdd [{}]%nat", idx.iter().map(|i| pos(*i).to_string()).collect::<Vec<_>>().join(";")),
                 Call::Auto(k) => format!("HAuto {}", gal_names(&self.sufs[*k])),
+                Call::Files(fargs) => format!(
+                    "HAddFiles [{}]",
+                    fargs.iter().map(|a| gal_hfile(&self.file_ent(a), if a.kind == FK::Good { Some(pos(a.idx)) } else { None })).collect::<Vec<_>>().join("; ")
+                ),
             })
             .collect();
         let known: Vec<String> = KNOWN.iter().map(|s| s.to_string()).collect();
@@ -332,7 +869,8 @@ impl Run {
         let kinds: Vec<&str> = used.iter().map(|i| self.pool[*i].2).collect();
         let desc = json!({"calls": jcalls, "pool_kinds": kinds});
         let t2 = if any_err && any_ok { "mixed ok/err" } else if any_err { "only err" } else { "only ok" };
-        self.sink.push(g, desc, calls.len() >= 2 && any_err && any_ok, None, &[tag, t2]);
+        let t3 = if has_files { "with file calls" } else { "raw calls only" };
+        self.sink.push(g, desc, calls.len() >= 2 && any_err && any_ok, None, &[tag, t2, t3]);
     }
 }
 
@@ -340,8 +878,20 @@ fn main() {
     if std::env::args().nth(1).as_deref() == Some("observe-child") {
         observe_child_main();
     }
-    let args = parse_args();
+    let mut args = parse_args();
     silence_panics();
+    // file calls use relative paths (a template registered without a name is named by its path):
+    // work inside `<out>/files`; everything else gets absolute paths first
+    let replay_text = args.replay.as_ref().map(|p| std::fs::read_to_string(p).expect("replay"));
+    if args.replay.is_some() {
+        args.out = std::env::temp_dir().join(format!("c10-replay-{}", std::process::id()));
+    }
+    std::fs::create_dir_all(&args.out).expect("mkdir out");
+    args.out = std::fs::canonicalize(&args.out).expect("canonicalize out");
+    let workdir = args.out.join("files");
+    let _ = std::fs::remove_dir_all(&workdir);
+    std::fs::create_dir_all(&workdir).expect("mkdir files");
+    std::env::set_current_dir(&workdir).expect("chdir");
     let mut rng = Rng::new(args.seed);
     let thorough = args.tier == "thorough";
     let pool = pool();
@@ -349,6 +899,10 @@ fn main() {
     let hdr = "From TeraV Require Import Model.Value Model.Registry Corr.CorrC11 Corr.CorrC10.";
     let mut run = Run {
         sink: Sink::new(&args.out, "history", hdr, "check_history"),
+        gsink: Sink::new(&args.out, "globhistory", hdr, "check_ghistory"),
+        glob_calls_ok: 0,
+        glob_calls_err: BTreeMap::new(),
+        reload_probes: 0,
         meta: Meta::default(),
         pool,
         srcs,
@@ -356,25 +910,24 @@ fn main() {
         calls_ok: 0,
         calls_err: BTreeMap::new(),
         fresh_compared: 0,
+        fresh_from_files: 0,
         child_observations: 0,
+        file_calls_ok: 0,
+        file_calls_err: BTreeMap::new(),
+        file_entries_by_kind: BTreeMap::new(),
     };
-    if let Some(p) = &args.replay {
-        let r: serde_json::Value = serde_json::from_str(&std::fs::read_to_string(p).expect("replay")).expect("json");
+    if let Some(text) = &replay_text {
+        let r: serde_json::Value = serde_json::from_str(text).expect("json");
         let case = if r.get("case").is_some() { &r["case"] } else if r.get("input").is_some() { &r["input"] } else { &r };
         let mut tera = Tera::default();
         for c in case["calls"].as_array().expect("calls") {
-            if let Some(s) = c.get("autoescape_on") {
-                let v: Vec<String> = s.as_array().unwrap().iter().map(|x| x.as_str().unwrap().to_string()).collect();
-                println!("autoescape_on({v:?})");
-                tera.autoescape_on(v);
-            } else {
-                let b: Vec<(String, String)> = c["add"].as_array().unwrap().iter().map(|p| (p[0].as_str().unwrap().to_string(), p[1].as_str().unwrap().to_string())).collect();
-                println!("add {b:?} -> {:?}", add_all(&mut tera, &b));
-            }
+            println!("{}", replay_call(&mut tera, c));
             for l in observe(&tera) {
                 println!("    {l}");
             }
         }
+        let _ = std::env::set_current_dir("/");
+        let _ = std::fs::remove_dir_all(&args.out);
         return;
     }
     let n = run.pool.len();
@@ -429,6 +982,197 @@ fn main() {
         }
     }
 
+    // ================= registration from files (add_template_file / add_template_files)
+    // --- corpus: explicit name and path-as-name; every file-only failure kind first, in the
+    // middle and last in a batch that replaces existing templates; the same key twice
+    run.history(&mut rng, &[Call::Files(vec![fa(0, true)]), Call::Files(vec![fa(2, false)]), Call::Files(vec![fa(8, true)]), Call::Files(vec![fa(1, false)])], "files-corpus");
+    run.history(&mut rng, &[Call::Files(vec![fa(6, false), fa(5, true), fa(4, false)]), Call::Add(vec![21]), Call::Files(vec![fa(24, true)]), Call::Files(vec![fa(7, false)])], "files-corpus");
+    run.history(&mut rng, &[Call::Files(vec![fa(0, true), fa(2, true)]), Call::Auto(1), Call::Files(vec![fa(19, false)]), Call::Files(vec![fa(3, true)]), Call::Auto(0)], "files-corpus");
+    run.history(&mut rng, &[Call::Add(vec![4, 5, 6]), Call::Files(vec![fa(20, true)]), Call::Files(vec![fa(0, false), fa(0, true), fa(1, false), fa(8, true)]), Call::Files(vec![fa(1, true), fa(0, false)])], "files-corpus");
+    for kind in FILE_FAILS {
+        for named in [true, false] {
+            run.history(&mut rng, &[Call::Files(vec![ff(0, named, kind)])], "files-corpus");
+            run.history(&mut rng, &[Call::Files(vec![fa(0, true), fa(2, false)]), Call::Files(vec![ff(0, named, kind), fa(1, true), fa(26, false)])], "files-corpus");
+            run.history(&mut rng, &[Call::Files(vec![fa(0, true), fa(2, false)]), Call::Files(vec![fa(1, true), ff(2, named, kind), fa(26, false)])], "files-corpus");
+            run.history(&mut rng, &[Call::Files(vec![fa(0, true), fa(2, false)]), Call::Files(vec![fa(1, false), fa(26, true), ff(27, named, kind)]), Call::Files(vec![fa(1, false), fa(26, true), fa(27, named)])], "files-corpus");
+        }
+    }
+    // --- every pool descriptor as a single file, both ways of naming it
+    // (quick: one naming each, alternating; thorough: both)
+    for a in 0..n {
+        if thorough || a % 2 == 0 {
+            run.history(&mut rng, &[Call::Files(vec![fa(a, true)])], "files1");
+        }
+        if thorough || a % 2 == 1 {
+            run.history(&mut rng, &[Call::Files(vec![fa(a, false)])], "files1");
+        }
+    }
+    // --- every two-call history and every two-file batch over the pool with at least one file
+    // call (quick: every 61st pair, so that the quick tier keeps its number of Coq shards;
+    // thorough: every pair, alternating between the two shapes)
+    let mut pair_no = 0usize;
+    for a in 0..n {
+        for b in 0..n {
+            pair_no += 1;
+            if (thorough && pair_no % 2 == 0) || pair_no % 61 == 7 {
+                let (na, nb) = (rng.chance(1, 2), rng.chance(1, 2));
+                let calls = match rng.below(3) {
+                    0 => vec![Call::Add(vec![a]), Call::Files(vec![fa(b, nb)])],
+                    1 => vec![Call::Files(vec![fa(a, na)]), Call::Add(vec![b])],
+                    _ => vec![Call::Files(vec![fa(a, na)]), Call::Files(vec![fa(b, nb)])],
+                };
+                run.history(&mut rng, &calls, "files2");
+            }
+            if (thorough && pair_no % 2 == 1) || pair_no % 61 == 38 {
+                let (na, nb) = (rng.chance(1, 2), rng.chance(1, 2));
+                run.history(&mut rng, &[Call::Files(vec![fa(a, na), fa(b, nb)])], "filebatch2");
+            }
+        }
+    }
+    // --- rollback of a file batch on top of an accepted core: two same-name variants (the
+    // undo list must be replayed in reverse), then an entry that fails -- a file-only failure
+    // kind, a syntax error, or a template that does not finalize; and the failing entry in the
+    // middle with good files after it (they must never be looked at)
+    let core_files: Vec<FArg> = core.iter().enumerate().map(|(k, i)| fa(*i, k % 2 == 0)).collect();
+    let mut vk = 0usize;
+    for a in variants {
+        for b in variants {
+            vk += 1;
+            if !thorough && vk % 13 != 0 {
+                continue;
+            }
+            let (na, nb) = (rng.chance(1, 2), rng.chance(1, 2));
+            let fail = match vk % 7 {
+                0 => fa(8, nb),  // syntax error
+                1 => fa(9, na),  // missing parent
+                2 => fa(22, nb), // extends itself
+                k => ff(b, na, FILE_FAILS[k - 3]),
+            };
+            run.history(&mut rng, &[Call::Files(core_files.clone()), Call::Files(vec![fa(a, na), fa(b, nb), fail])], "files-rollback");
+            run.history(&mut rng, &[Call::Add(core.clone()), Call::Files(vec![fa(a, na), fail, fa(b, nb)]), Call::Files(vec![fa(a, nb), fa(b, na)])], "files-rollback");
+        }
+    }
+    // --- random histories mixing all call kinds
+    let kf = if thorough { 1000 } else { 25 };
+    let good_f = [0usize, 1, 2, 4, 5, 6, 24, 25, 26, 27, 28, 29, 30, 31, 32, 34];
+    for _ in 0..kf {
+        let len = 2 + rng.below(9);
+        let mut calls = vec![];
+        for _ in 0..len {
+            if rng.chance(1, 7) {
+                calls.push(Call::Auto(rng.below(4)));
+                continue;
+            }
+            let bl = 1 + rng.below(3);
+            let mut idx = vec![];
+            for _ in 0..bl {
+                idx.push(if rng.chance(3, 5) { *rng.pick(&good_f) } else { rng.below(n) });
+            }
+            if rng.chance(1, 3) {
+                calls.push(Call::Add(idx));
+            } else {
+                let fargs = idx
+                    .iter()
+                    .map(|i| {
+                        let named = rng.chance(1, 2);
+                        if rng.chance(1, 10) { ff(*i, named, *rng.pick(&FILE_FAILS)) } else { fa(*i, named) }
+                    })
+                    .collect();
+                calls.push(Call::Files(fargs));
+            }
+        }
+        run.history(&mut rng, &calls, "files-random");
+    }
+
+    // ================= load_from_glob / full_reload (family `globhistory`)
+    {
+        use GCallH::*;
+        let add = |v: Vec<usize>| Plain(Call::Add(v));
+        let ges = |v: &[usize]| v.iter().map(|i| ge(*i)).collect::<Vec<_>>();
+        // --- corpus: manual templates are kept, glob templates replaced by the next load; a
+        // failing load restores templates AND the remembered glob; manual replacement of a glob
+        // template; reload without a glob; invalid pattern
+        run.ghistory(&mut rng, &[Reload(vec![]), LoadInvalid, add(vec![0]), Load(0, ges(&[2])), Reload(ges(&[2, 27])), Reload(ges(&[27])), Reload(ges(&[2]))], "glob-corpus");
+        run.ghistory(&mut rng, &[Load(0, ges(&[0, 2, 27])), Load(1, ges(&[0, 8])), Reload(ges(&[0, 26])), Load(1, ges(&[4, 5, 6])), Reload(ges(&[4, 5])), Reload(ges(&[4, 5, 24]))], "glob-corpus");
+        run.ghistory(&mut rng, &[add(vec![4, 5, 6]), Load(0, ges(&[0, 2])), add(vec![26]), Reload(ges(&[0])), Reload(ges(&[0, 1])), Load(1, ges(&[24])), LoadInvalid, Reload(ges(&[21]))], "glob-corpus");
+        run.ghistory(&mut rng, &[Load(0, ges(&[0, 2])), Plain(Call::Auto(1)), Plain(Call::Files(vec![fa(2, false), fa(27, true)])), Reload(ges(&[1])), Plain(Call::Auto(0)), Reload(vec![])], "glob-corpus");
+        for kind in [FK::NotUtf8, FK::BadPath, FK::Dir] {
+            run.ghistory(&mut rng, &[Load(0, vec![gx(0, kind)]), Load(0, vec![ge(0), gx(2, kind)]), Load(0, vec![ge(0), ge(2)]), Reload(vec![ge(1), gx(2, kind), ge(27)]), Reload(vec![ge(1), ge(26), ge(27)])], "glob-corpus");
+            run.ghistory(&mut rng, &[add(vec![0]), Load(0, vec![ge(2)]), Load(1, vec![ge(27), gx(4, kind)]), Reload(vec![ge(26)]), add(vec![1, 8]), Reload(vec![gx(26, kind)]), Reload(vec![])], "glob-corpus");
+        }
+        // --- every pool descriptor as the only matched file, on an empty instance and next to
+        // a manual core; then gone again at the next reload
+        for a in 0..n {
+            run.ghistory(&mut rng, &[Load(0, vec![ge(a)]), Reload(vec![])], "glob1");
+            if thorough || a % 2 == 0 {
+                run.ghistory(&mut rng, &[add(vec![0, 2, 4, 5, 6]), Load(0, vec![ge(a)]), Reload(vec![])], "glob1");
+            }
+        }
+        // --- same-name variants: loaded by one glob and replaced through a reload, with a bad
+        // file next to them or not (quick: every 7th pair, thorough: every 2nd)
+        let mut vk = 0usize;
+        for a in variants {
+            for b in variants {
+                vk += 1;
+                if (thorough && vk % 2 != 0) || (!thorough && vk % 7 != 0) {
+                    continue;
+                }
+                let fail = match vk % 5 {
+                    0 => vec![ge(8)],
+                    1 => vec![gx(4, FK::NotUtf8)],
+                    2 => vec![gx(4, FK::BadPath)],
+                    3 => vec![ge(9)],
+                    _ => vec![],
+                };
+                let mut second = vec![ge(a), ge(b)];
+                second.extend(fail);
+                run.ghistory(&mut rng, &[Load(0, core.iter().map(|i| ge(*i)).collect()), Reload(second.clone()), Reload(vec![ge(a), ge(b)])], "glob-replace");
+                run.ghistory(&mut rng, &[add(core.clone()), Load(1, second), add(vec![a]), Reload(vec![ge(b)])], "glob-replace");
+            }
+        }
+        // --- random histories over all call kinds
+        let kg = if thorough { 600 } else { 100 };
+        let good_g = [0usize, 1, 2, 4, 5, 6, 24, 25, 26, 27, 28, 29, 30, 31, 32, 34];
+        for _ in 0..kg {
+            let len = 3 + rng.below(8);
+            let mut calls = vec![];
+            for _ in 0..len {
+                let mut idx = vec![];
+                for _ in 0..rng.below(5) {
+                    idx.push(if rng.chance(4, 5) { *rng.pick(&good_g) } else { rng.below(n) });
+                }
+                let ents = |rng: &mut Rng| idx.iter().map(|i| if rng.chance(1, 12) { gx(*i, *rng.pick(&GLOB_FAILS)) } else { ge(*i) }).collect::<Vec<_>>();
+                match rng.below(20) {
+                    0 => calls.push(LoadInvalid),
+                    1 | 2 => calls.push(Plain(Call::Auto(rng.below(4)))),
+                    3..=7 => {
+                        let e = ents(&mut rng);
+                        calls.push(Load(rng.below(2), e))
+                    }
+                    8..=12 => {
+                        let e = ents(&mut rng);
+                        calls.push(Reload(e))
+                    }
+                    13..=16 => {
+                        if idx.is_empty() {
+                            idx.push(*rng.pick(&good_g));
+                        }
+                        idx.truncate(3);
+                        calls.push(add(idx.clone()))
+                    }
+                    _ => {
+                        if idx.is_empty() {
+                            idx.push(*rng.pick(&good_g));
+                        }
+                        idx.truncate(3);
+                        calls.push(Plain(Call::Files(idx.iter().map(|i| fa(*i, rng.chance(1, 2))).collect())))
+                    }
+                }
+            }
+            run.ghistory(&mut rng, &calls, "glob-random");
+        }
+    }
+
     // --- random histories, length <= 12, batches of 1..3, autoescape interleaved
     let k = if thorough { 4000 } else { 500 };
     // descriptors that make an accepted core, so that histories do not fail all the way
@@ -451,13 +1195,23 @@ fn main() {
         run.history(&mut rng, &calls, "random");
     }
 
-    let Run { sink, mut meta, calls_ok, calls_err, fresh_compared, child_observations, .. } = run;
+    let Run { gsink, glob_calls_ok, glob_calls_err, reload_probes, sink, mut meta, calls_ok, calls_err, fresh_compared, fresh_from_files, child_observations, file_calls_ok, file_calls_err, file_entries_by_kind, .. } = run;
+    meta.extra.insert("successful_file_calls".into(), json!(file_calls_ok));
+    meta.extra.insert("failing_file_calls_by_kind".into(), json!(file_calls_err));
+    meta.extra.insert("file_entries_by_kind".into(), json!(file_entries_by_kind));
+    meta.extra.insert("fresh_instances_filled_from_files".into(), json!(fresh_from_files));
     meta.extra.insert("exhaustive_histories".into(), json!(exhaustive));
     meta.extra.insert("exhaustive_space".into(), json!(format!("all histories of <= 2 single-template add calls over the {} pool descriptors + all two-template batches{}", n, if thorough { " + half of all 3-call histories (sampled)" } else { "" })));
     meta.extra.insert("successful_add_calls".into(), json!(calls_ok));
     meta.extra.insert("failing_add_calls_by_kind".into(), json!(calls_err));
     meta.extra.insert("fresh_instance_comparisons".into(), json!(fresh_compared));
     meta.extra.insert("child_process_observations_after_failed_adds".into(), json!(child_observations));
+    meta.extra.insert("successful_glob_calls".into(), json!(glob_calls_ok));
+    meta.extra.insert("failing_glob_calls_by_kind".into(), json!(glob_calls_err));
+    meta.extra.insert("reload_probes_after_failing_calls".into(), json!(reload_probes));
     meta.families.push(sink.finish());
+    meta.families.push(gsink.finish());
+    let _ = std::env::set_current_dir(&args.out);
+    let _ = std::fs::remove_dir_all(&workdir);
     meta.write(&args.out);
 }
